@@ -15,9 +15,12 @@ from rv import ToolError, log
 AB = lambda n: {"k": "ab", "n": n}
 
 
-def conc_cfg(cap=200, kind="opt", minseg=8, retries=2, backend="vec", unify=False):
-    return {"cap": cap, "kind": kind, "minseg": minseg, "unify": unify, "backend": backend, "reserved": 0,
-            "retries": retries}
+def conc_cfg(cap=200, kind="opt", minseg=8, retries=2, backend="vec", unify=False, own_clones=False):
+    c = {"cap": cap, "kind": kind, "minseg": minseg, "unify": unify, "backend": backend, "reserved": 0,
+         "retries": retries}
+    if own_clones:
+        c["own_clones"] = True
+    return c
 
 
 def run_conc(binary, drivers, tag, timeout=1800):
@@ -86,9 +89,14 @@ def setup_state(binary, cfg, setup_ops, tag):
         h, m["mo"], m["ms"], m["po"], m["ps"], m["pat"]) for h, m in sorted(handles.items()) if h in live)
     if not hs:
         hs = "[x \\in {} |-> 0]"
-    text = ("[cursor |-> %d, disc |-> %d, sent |-> %s,\n   mem |-> [i \\in 0..%d |-> <<%s>>[i + 1]],\n   handles |-> %s]" % (
+    text = ("[cursor |-> %d, disc |-> %d, sent |-> %s, refs |-> REFS0,\n   mem |-> [i \\in 0..%d |-> <<%s>>[i + 1]],\n   handles |-> %s]" % (
         reset["obs"]["alloc"], reset["obs"]["disc"], sent, len(mem) - 1, ",".join(str(b) for b in mem), hs))
     return text, reset
+
+
+def refs0(cfg, progs):
+    """Reference count when the threads start: own_clones = one arena value per thread (the main one is gone)."""
+    return len(progs) if cfg.get("own_clones") else 1
 
 
 def tla_op(op):
@@ -103,22 +111,29 @@ def tla_op(op):
     return "[" + ", ".join(parts) + "]"
 
 
-def write_mcsync(wd, name, cfg, setup_text, progs, emit=False, liveness=False, invariants=True):
+def write_mcsync(wd, name, cfg, setup_text, progs, emit=False, liveness=False, invariants=True, hb=False):
     rv.ensure_dir(wd)
     n = len(progs)
     with open(os.path.join(wd, name + ".tla"), "w") as f:
-        f.write("---- MODULE %s ----\nEXTENDS MCSync\n" % name)
+        f.write("---- MODULE %s ----\nEXTENDS %s\n" % (name, "MCSyncHB" if hb else "MCSync"))
         f.write("mcThreads == 0..%d\n" % (n - 1))
         f.write("mcProg == %s\n" % " @@ ".join("(%d :> <<%s>>)" % (i, ", ".join(tla_op(o) for o in p)) for i, p in enumerate(progs)))
-        f.write("mcSetup == %s\n" % setup_text)
+        f.write("mcSetup == %s\n" % setup_text.replace("REFS0", str(refs0(cfg, progs))))
         f.write("====\n")
     with open(os.path.join(wd, name + ".cfg"), "w") as f:
-        f.write("SPECIFICATION %s\nVIEW View\nCONSTANTS\n" % ("MCFairSpec" if liveness else "MCSpec"))
+        if hb:
+            f.write("SPECIFICATION HSpec\nVIEW HView\nCONSTANTS\n")
+        else:
+            f.write("SPECIFICATION %s\nVIEW View\nCONSTANTS\n" % ("MCFairSpec" if liveness else "MCSpec"))
         f.write("  Threads <- mcThreads\n  Prog <- mcProg\n  Setup <- mcSetup\n")
-        f.write("  Cap = %d\n  DataOff = %d\n  Kind = \"%s\"\n  MinSeg0 = %d\n  MaxRetries = %d\n  Emit = %s\n" % (
-            cfg["cap"], 1, cfg["kind"], cfg["minseg"], cfg.get("retries", 5), "TRUE" if emit else "FALSE"))
-        if invariants:
-            f.write("INVARIANTS LiveDisjoint LiveInBounds LiveIntact NoOutOfBounds\n")
+        f.write("  Cap = %d\n  DataOff = %d\n  Kind = \"%s\"\n  MinSeg0 = %d\n  MaxRetries = %d\n" % (
+            cfg["cap"], 1, cfg["kind"], cfg["minseg"], cfg.get("retries", 5)))
+        if not hb:
+            f.write("  Emit = %s\n" % ("TRUE" if emit else "FALSE"))
+        if hb:
+            f.write("INVARIANTS NoRace\n")
+        elif invariants:
+            f.write("INVARIANTS LiveDisjoint LiveInBounds LiveIntact NoOutOfBounds FreedAtMostOnce FreedOnlyAtZero NoAccessAfterFree\n")
         if liveness:
             f.write("PROPERTY Termination\n")
         f.write("CHECK_DEADLOCK FALSE\n")
@@ -162,7 +177,7 @@ def write_tracesync(wd, name, cfg, setup_text, progs):
         f.write("---- MODULE %s ----\nEXTENDS TraceSyncImpl\n" % name)
         f.write("mcThreads == 0..%d\n" % (n - 1))
         f.write("mcProg == %s\n" % " @@ ".join("(%d :> <<%s>>)" % (i, ", ".join(tla_op(o) for o in p)) for i, p in enumerate(progs)))
-        f.write("mcSetup == %s\n" % setup_text)
+        f.write("mcSetup == %s\n" % setup_text.replace("REFS0", str(refs0(cfg, progs))))
         f.write("====\n")
     with open(os.path.join(wd, name + ".cfg"), "w") as f:
         f.write("SPECIFICATION TSpec\nCONSTANTS\n")
